@@ -192,8 +192,9 @@ AddField1 ==
        LET r == FieldItem(f1.s, it, ItemPos("f1", f1.items)) IN
        f1' = [f1 EXCEPT !.items = Append(@, it), !.s = r.s, !.d = @ \o r.d, !.present = TRUE]
   /\ UNCHANGED <<derive, shape, cont, f2, v1, v2, phase>>
+\* field 2: the struct's second field - or, next to `V1 { a: u8 }`, the field of a second struct variant `V2 { b: u8 }`
 AddField2 ==
-  /\ phase \in {"body1", "body2"} /\ shape = "named" /\ Len(f2.items) < MaxField2
+  /\ phase \in {"body1", "body2"} /\ (shape = "named" \/ (VariantField /\ \A i \in 1..Len(v2.items) : v2.items[i].name # "word")) /\ Len(f2.items) < MaxField2
   /\ \E it \in FieldItems :
        LET r == FieldItem(f2.s, it, ItemPos("f2", f2.items)) IN
        f2' = [f2 EXCEPT !.items = Append(@, it), !.s = r.s, !.d = @ \o r.d, !.present = TRUE]
@@ -206,11 +207,13 @@ AddVariant1 ==
        LET r == VariantItem(v1.s, it, ItemPos("v1", v1.items), v1.style) IN
        v1' = [v1 EXCEPT !.items = Append(@, it), !.s = r.s, !.d = @ \o r.d, !.present = TRUE]
   /\ UNCHANGED <<derive, shape, cont, f1, f2, v2, phase>>
+V2Style == IF shape = "enum" /\ v1.style = "struct" /\ f2.present THEN "struct" ELSE "unit"     \* `V2 { b: u8 }` when field 2 exists
 AddVariant2 ==
   /\ phase \in {"body1", "body2"} /\ shape = "enum" /\ Len(v2.items) < MaxVariant2
   /\ \E it \in VariantItems :
-       LET r == VariantItem(v2.s, it, ItemPos("v2", v2.items), "unit") IN
-       v2' = [v2 EXCEPT !.items = Append(@, it), !.s = r.s, !.d = @ \o r.d, !.present = TRUE]
+       /\ (f2.present => it.name # "word")          \* V2 with a field is no unit variant; `word` on it is v1's business
+       /\ LET r == VariantItem(v2.s, it, ItemPos("v2", v2.items), V2Style) IN
+          v2' = [v2 EXCEPT !.items = Append(@, it), !.s = r.s, !.d = @ \o r.d, !.present = TRUE]
   /\ phase' = "body2"
   /\ UNCHANGED <<derive, shape, cont, f1, f2, v1>>
 
@@ -248,9 +251,9 @@ BodyDiags ==
     [] shape = "enum" ->
          IF elem THEN <<Dg("body-unrepresentable", <<"v1", 0>>)>> \o (IF v2.present THEN <<Dg("body-unrepresentable", <<"v2", 0>>)>> ELSE <<>>)   \* one per variant
          ELSE (IF v1.d # <<>> THEN v1.d ELSE f1.d)      \* from_variant: the variant's own options, `?`, then its fields (a skipped variant's too)
-              \o v2.d
+              \o (IF v2.d # <<>> THEN v2.d ELSE IF f2.present THEN f2.d ELSE <<>>)
               \o (IF V1Ok /\ TupleN(V1Style) /\ v1.s.skip # "true" THEN <<Dg("body-unrepresentable", <<"v1", 0>>)>> ELSE <<>>)   \* a skipped variant is never parsed
-              \o (LET w1 == V1Ok /\ v1.s.word = "true" w2 == v2.d = <<>> /\ v2.s.word = "true" IN
+              \o (LET w1 == V1Ok /\ v1.s.word = "true" w2 == v2.d = <<>> /\ (f2.present => f2.d = <<>>) /\ v2.s.word = "true" IN
                   (IF (w1 \/ w2) /\ cont.s.from_word THEN <<Dg("word+from_word", <<"c", 0>>)>> ELSE <<>>)
                   \o (IF w1 /\ w2 THEN <<Dg("multi-word", <<"v1", 0>>), Dg("multi-word", <<"v2", 0>>)>> ELSE <<>>))
 
@@ -328,14 +331,15 @@ BodyViolations ==
     [] shape = "enum0" -> IF elem THEN {Viol("body-unrepresentable", {<<"body", 0>>, <<"call_site", 0>>})} ELSE {}
     [] shape = "enum" ->
          IF elem THEN {Viol("body-unrepresentable", {<<"v1", 0>>, <<"v2", 0>>, <<"body", 0>>})}
-         ELSE ElementViolations("v1", v1.items, VariantKnown, {}, V1Style) \cup ElementViolations("v2", v2.items, VariantKnown, {}, "unit")
+         ELSE ElementViolations("v1", v1.items, VariantKnown, {}, V1Style) \cup ElementViolations("v2", v2.items, VariantKnown, {}, V2Style)
               \cup (IF V1Style = "struct" THEN ElementViolations("f1", f1.items, FieldKnown, {}, "unit") ELSE {})   \* options of a variant's field - skipped or not
+              \cup (IF V1Style = "struct" /\ f2.present THEN ElementViolations("f2", f2.items, FieldKnown, {}, "unit") ELSE {})   \* one flatten member per VARIANT is fine
               \cup (IF TupleN(V1Style) /\ ~(\E i \in 1..Len(v1.items) : /\ v1.items[i].name = "skip" /\ Truthy(v1.items[i].form)      \* the skip that takes effect says yes
                                                                      /\ \A j \in 1..(i-1) : ~(v1.items[j].name = "skip" /\ GoodForm("skip", v1.items[j].form)))
                     THEN {Viol("body-unrepresentable", {<<"v1", i>> : i \in AnyIx})} ELSE {})
-              \cup (IF ((WordTrue(v1) /\ V1Style = "unit") \/ WordTrue(v2)) /\ Given("from_word")
+              \cup (IF ((WordTrue(v1) /\ V1Style = "unit") \/ (WordTrue(v2) /\ V2Style = "unit")) /\ Given("from_word")
                     THEN {Viol("word+from_word", {<<"c", i>> : i \in AnyIx} \cup {<<"v1", i>> : i \in AnyIx} \cup {<<"v2", i>> : i \in AnyIx})} ELSE {})
-              \cup (IF WordTrue(v1) /\ V1Style = "unit" /\ WordTrue(v2)
+              \cup (IF WordTrue(v1) /\ V1Style = "unit" /\ WordTrue(v2) /\ V2Style = "unit"
                     THEN {Viol("multi-word", {<<"v1", i>> : i \in AnyIx} \cup {<<"v2", i>> : i \in AnyIx})} ELSE {})
     [] shape = "union" -> {}
 
@@ -353,8 +357,10 @@ ReportedScope ==
   ELSE IF shape = "enum0" /\ derive \in ElementLevel THEN BodyViolations       \* whole-element verdicts come first
   ELSE IF ContainerViolations # {} THEN ContainerViolations
   ELSE IF BodyViolations # {}
-       THEN (IF shape = "enum" /\ derive \notin ElementLevel /\ ElementViolations("v1", v1.items, VariantKnown, {}, V1Style) # {}
-             THEN {v \in BodyViolations : \A p \in v.where : p[1] # "f1"}       \* a variant's fields are looked at once its own options are clean
+       THEN (IF shape = "enum" /\ derive \notin ElementLevel
+             THEN LET hide == (IF ElementViolations("v1", v1.items, VariantKnown, {}, V1Style) # {} THEN {"f1"} ELSE {})
+                              \cup (IF ElementViolations("v2", v2.items, VariantKnown, {}, V2Style) # {} THEN {"f2"} ELSE {})
+                  IN {v \in BodyViolations : \A p \in v.where : p[1] \notin hide}   \* a variant's fields are looked at once its own options are clean
              ELSE BodyViolations)
   ELSE WholeViolations
 
